@@ -147,7 +147,14 @@ def run(ctx, res):
                   fc[1:], fc[:-1], b'a\n' + fc[:-1], fc[:len(fc) // 2] + b'\n' + fc[len(fc) // 2:], fc + b'\n',
                   b'x=1 y=2 x=1 y=2 x=1 y=2\n' + fc + b'\n', b'function _update60() x=1 end\n' + fc + b' \n', fc + b'\n\n', fc + b'\t', fc + b'\r\n'):
             check_text(ctx, res, t, 'suffix-inside', batch)
-    # known finding family: text that itself ends with the compatibility suffix
+    # a repeated stretch at every distance around the edge of the window a block reference can reach back (offsets are 1..3135 in the
+    # format: (255-60)*16+15): just inside it may be referenced, just outside it must be spelled out again — either way the text comes back
+    uniq = bytes((i * 7 + j) % 26 + 65 for i, j in zip(range(4000), [0, 3, 1, 4, 1, 5, 9, 2, 6] * 500))
+    for d in ([3119, 3120, 3121, 3134, 3135, 3136, 3137, 3150] if not ctx.thorough() else list(range(3100, 3160))) + [rng.randrange(20, 3200) for _ in range(ctx.budget(3, 20))]:
+        blk = rng.choice([b'function draw_player()', b'abcdefghijklmnopqrstuvwx', b'x=x+1 y=y+1 z=z+1 w=w+1 '])
+        filler = uniq[:max(0, d - len(blk))]
+        check_text(ctx, res, b'--' + blk + filler + blk + b'\n', 'repeat-at-distance', batch)
+
     check_text(ctx, res, b'x=1\n' + c.PICO8_FUTURE_CODE2, 'ends-with-suffix', batch)
     check_text(ctx, res, c.PICO8_FUTURE_CODE1, 'ends-with-suffix', batch)
     res.sample({'text': repr(base + tail), 'compressed_len': len(c.compress_code(base + tail))})
@@ -164,15 +171,20 @@ def run(ctx, res):
         res.nontrivial.add(('area-limit', target))
         key = 'C05:area-limit:%d' % target
         inp = {'code': hx(code), 'compressed_stream_bytes': target}
+        # (the target length steers the generator — it comes from the Lean compressor; what must fit is the stream the implementation
+        # itself produces for this text, whatever its length)
+        own = len(bytes(c.compress_code(code)))
+        inp['implementation_stream_bytes'] = own
         try:
             ab = bytes(p8png.get_bytes_from_code(code))
         except Exception as e:
-            if target <= C04.AREA - 8:
-                res.fail(key, 'a stream of %d bytes fits the code area with its 8-byte header but was refused (%r)' % (target, e), inp)
+            if own <= C04.AREA - 8:
+                res.fail(key, 'a stream of %d bytes fits the code area with its 8-byte header but was refused (%r)' % (own, e), inp)
             continue
-        if target > C04.AREA - 8:
-            res.fail(key, 'a stream of %d bytes does not fit the code area with its 8-byte header but was written (%d bytes)' % (target, len(ab)), inp)
+        if own > C04.AREA - 8:
+            res.fail(key, 'a stream of %d bytes does not fit the code area with its 8-byte header but was written (%d bytes)' % (own, len(ab)), inp)
             continue
+        target = own
         # by the format: header, the text length (big endian), two zero bytes, then the whole stream — which must decode to the text
         stream = ab[8:]
         if ab[:4] != b':c:\x00' or (ab[4] << 8 | ab[5]) != len(code) or len(stream) != target or refstream.ref_decode(stream) != with_suffix(c, code):
